@@ -2,3 +2,4 @@ pub mod bits;
 pub mod md5;
 pub mod refdec;
 pub mod rice;
+pub mod forenc;
